@@ -473,4 +473,3 @@ func (it *stringIter) next() tuple {
 	it.i += n
 	return okv
 }
-
